@@ -390,12 +390,33 @@ let () =
                        | _ -> 0)
                    | None -> 0)
                | _ -> 0);
+             (match rtoks with
+              | ["latewrite"; r; w] ->
+                  (* let v: Vec<_> = q.iter_mut().collect(); *v[0].1 = w; drop(v):
+                     the iterator is exhausted and dropped (heap rebuilt) and only then is the
+                     priority of the first slot written through the reference that outlived it.
+                     For the model that is the state transformer of writing through a second
+                     iter_mut that is leaked: no rebuild follows the write. *)
+                  let pre = (match toks with "fuse" :: k :: _ -> ["fuse"; k] | _ -> []) in
+                  let n = !cur_size + 1 in
+                  let first = pre @ ["itermut"; r; "direct"; "drop"; string_of_int n] @ rep n "n" in
+                  let (m1, out1) = tstep !mode !m (parse_op first) in
+                  m := m1;
+                  (match out1 with
+                   | OutScript _ ->
+                       let ticks = int_of_nat (total_ticks m1) in
+                       let (m2, _) = tstep !mode m1
+                           (parse_op ["itermut"; r; "direct"; "forget"; "1"; "n:" ^ w ^ ":-"]) in
+                       m := m2;
+                       pr_line OutUnit ticks m2
+                   | o -> pr_line o (int_of_nat (total_ticks m1)) m1; if is_fault o then dead := true)
+              | _ ->
              let o = parse_op toks in
              let (m', out) = tstep !mode !m o in
              m := m';
              let out = (match out with OutScript _ when !cur_panic -> OutUnwound | o -> o) in
              pr_line out (int_of_nat (total_ticks m')) m';
-             if is_fault out then dead := true
+             if is_fault out then dead := true)
            end);
       if Buffer.length buf > 60000 then (Buffer.output_buffer oc buf; Buffer.clear buf)
     done
